@@ -1,6 +1,7 @@
 package markdown
 
 import (
+	"bytes"
 	"path/filepath"
 	"regexp"
 	"strings"
@@ -421,10 +422,43 @@ func (r *WordRenderer) textValue(n *ast.Text) string {
 	if n.IsRaw() {
 		return string(value)
 	}
-	value = util.UnescapePunctuations(value)
-	value = util.ResolveNumericReferences(value)
-	value = util.ResolveEntityNames(value)
-	return string(value)
+	return string(decodeInlineText(value))
+}
+
+// decodeInlineText 单次扫描还原反斜杠转义和字符引用。按CommonMark，二者互不影响：
+// 被转义的 & 不再构成字符引用，字符引用解码出的字符也不会再被当作转义或引用处理。
+func decodeInlineText(src []byte) []byte {
+	if bytes.IndexByte(src, '\\') < 0 && bytes.IndexByte(src, '&') < 0 {
+		return src
+	}
+	out := make([]byte, 0, len(src))
+	for i := 0; i < len(src); {
+		c := src[i]
+		if c == '\\' && i+1 < len(src) && util.IsPunct(src[i+1]) {
+			out = append(out, src[i+1])
+			i += 2
+			continue
+		}
+		if c == '&' {
+			if j := bytes.IndexByte(src[i:], ';'); j > 1 {
+				ref := src[i : i+j+1]
+				var dec []byte
+				if ref[1] == '#' {
+					dec = util.ResolveNumericReferences(ref)
+				} else {
+					dec = util.ResolveEntityNames(ref)
+				}
+				if !bytes.Equal(dec, ref) && bytes.IndexByte(ref[1:], '&') < 0 {
+					out = append(out, dec...)
+					i += j + 1
+					continue
+				}
+			}
+		}
+		out = append(out, c)
+		i++
+	}
+	return out
 }
 
 // extractTextContent 提取节点的文本内容
